@@ -81,6 +81,10 @@ def rejects(p, a):
     return all((v["tt"], v["c"]) not in ps for v in a["vs"]) and len(a["vs"]) > 0
 
 
+def ty_sig(t):
+    return (t["k"], tuple(sorted((v["tt"], v["c"]) for v in t["vs"])))
+
+
 def too_many(ov, call):
     """more positional arguments than a declaration without rest / keyword parameters can take"""
     if any(p["kind"] in ("rest", "key", "optkey") for p in ov) or any(a["key"] for a in call):
@@ -92,6 +96,17 @@ def deviation_name(prop, case):
     """Name of the known deviation of the as-is binder that explains a C07 / C08 disagreement."""
     ov = case["d"][0]
     pairs = bound_pairs(ov, case["c"])
+    if len(case["d"]) > 1:
+        # overloads: keyword parameters of the same name share one slot of the frame table (the declaration loaded
+        # last decides the type of `k:` for every overload)
+        keyed = [{p["key"]: (ty_sig(p["ty"]), p["kind"]) for p in d if p["key"]} for d in case["d"]]
+        clash = any(k in keyed[1] and keyed[1][k] != t for k, t in keyed[0].items())
+        if prop == "C08" and clash:
+            return "Dev_OverloadKeywordParamsShareSlot"
+        if prop == "C07":
+            for d in case["d"]:
+                if any(p["kind"] == "rest" and rejects(p["ty"], a["ty"]) for p, a in bound_pairs(d, case["c"])):
+                    return "Dev_RestArgsNotTypeChecked"
     if prop == "C07":
         if case.get("anyret") and "AnyReturn" in case["path"] and too_many(ov, case["c"]):
             return "Dev_UntypedReturnSkipsTooMany"
@@ -178,6 +193,7 @@ def run(prop, tier, work):
         universes = [dict(maxparams=2, maxargs=2, rich=False, overloads=False)]
         if prop in ("C07", "C08"):
             universes.append(dict(maxparams=1, maxargs=2, rich=False, overloads=False, anyret=True))
+            universes.append(dict(maxparams=1, maxargs=1, rich=False, overloads=True))      # the overload fallback
     else:
         universes = [dict(maxparams=2, maxargs=2, rich=True, overloads=False),
                      dict(maxparams=1, maxargs=2, rich=False, overloads=True),
@@ -205,6 +221,11 @@ def run(prop, tier, work):
             if o["binds"]:
                 ev = o["binds"][0]
                 why = B.event_matches_case(ev, c["d"][0], c["c"]) if not any(p["kind"] == "rest" for p in c["d"][0]) else ""
+                if why and len(c["d"]) > 1:
+                    # with overloads ti may bind against the declarations in another order: some event must show some
+                    # declaration of the case exactly as written
+                    why = "" if any(not B.event_matches_case(e2, ov, c["c"]) for e2 in o["binds"] for ov in c["d"]
+                                    if not any(p["kind"] == "rest" for p in ov)) else why
                 if why:
                     raise C.HarnessError("concretisation is not what ti analysed (%s): %s" % (shape(c), why))
                 bound += 1
